@@ -10,6 +10,7 @@ CONSTANTS
   Ops <- mcOps
   ProbeLrus <- mcProbe
   MaxLevel = 4
+  EmitT = FALSE
 INVARIANT EmitAll
 VIEW View
 CHECK_DEADLOCK FALSE
